@@ -228,10 +228,10 @@ def extend_schema(
     ]
 
     # Cast is safe as type defs will always lead to named types and not wrapped types
+    # All known types and not only the extended ones: types which cannot be
+    # reached from the root types would be dropped otherwise.
     types = [
-        cast(NamedType, builder.extend_type(t))
-        for t in schema.types.values()
-        if t.name in type_exts
+        cast(NamedType, builder.extend_type(t)) for t in schema.types.values()
     ] + [
         cast(NamedType, builder.extend_type(builder.build_type(t)))
         for t in type_defs.values()
@@ -259,6 +259,8 @@ def extend_schema(
                 builder.build_type(op_def.type)
             )
 
+    default_resolver = schema.default_resolver
+
     schema = Schema(
         query_type=operation_types["query"],
         mutation_type=operation_types["mutation"],
@@ -267,6 +269,7 @@ def extend_schema(
         directives=directives,
         nodes=(schema.nodes or []) + (schema_exts or []),  # type: ignore
     )
+    schema.default_resolver = default_resolver
 
     if schema_directives is not None:
         schema = apply_schema_directives(schema, schema_directives)
